@@ -397,7 +397,9 @@ class Parser:
                     # Negating a zero literal yields negative zero, a signed
                     # literal — fold it here so the sign survives regardless of
                     # context (a `Neg` under REAL loses it). See `as_real`.
-                    return Decnum('-0.0', loc)
+                    # A zero that is already negative (`--0`) negates to `+0`.
+                    negative = isinstance(arg.as_real(), Float)
+                    return Decnum('0.0' if negative else '-0.0', loc)
                 elif isinstance(arg, Integer):
                     return Integer(-arg.val, loc)
                 else:
